@@ -155,9 +155,123 @@ func structTypeOf(slots []Slot) reflect.Type {
 func valuesOf(slots []Slot) []argmapper.Value {
 	var vs []argmapper.Value
 	for _, s := range slots {
-		vs = append(vs, argmapper.Value{Name: s.Name, Type: Types[s.Type], Subtype: s.Sub})
+		n := s.Name
+		switch {
+		case n == "":
+		case s.Spell%3 == 1:
+			n = strings.ToUpper(n)
+		case s.Spell%3 == 2:
+			n = strings.ToUpper(n[:1]) + n[1:]
+		}
+		vs = append(vs, argmapper.Value{Name: n, Type: Types[s.Type], Subtype: s.Sub})
 	}
 	return vs
+}
+
+// CheckValueSet asserts the value-set accessor clauses of C15 on a list of
+// distinct values: Values() reports them back in order (names lower-cased),
+// Named finds each named value, Typed each type-only value that is the only
+// type-only one of its type, TypedSubtype each value no other value shares
+// type and subtype with, and SignatureValues -> FromSignature restores every
+// value. It returns human-readable discrepancies.
+func CheckValueSet(slots []Slot, mint func() uint64) []string {
+	var bad []string
+	vs, err := argmapper.NewValueSet(valuesOf(slots))
+	if err != nil {
+		return []string{"NewValueSet: " + err.Error()}
+	}
+	got := vs.Values()
+	if len(got) != len(slots) {
+		return []string{fmt.Sprintf("Values() has %d entries for %d values", len(got), len(slots))}
+	}
+	ptrs := make([]*argmapper.Value, len(slots))
+	for i, s := range slots {
+		if got[i].Name != s.Name || got[i].Type != Types[s.Type] || got[i].Subtype != s.Sub {
+			bad = append(bad, fmt.Sprintf("Values()[%d] is %s, declared %s", i, got[i].String(), s.Label))
+		}
+		switch {
+		case s.Name != "":
+			ptrs[i] = vs.Named(s.Name)
+			if ptrs[i] == nil || ptrs[i].Name != s.Name || ptrs[i].Type != Types[s.Type] {
+				bad = append(bad, fmt.Sprintf("Named(%q) does not find value %d", s.Name, i))
+				ptrs[i] = nil
+			}
+		case builtLookupByType(slots, i):
+			ptrs[i] = vs.Typed(Types[s.Type])
+			if ptrs[i] == nil || ptrs[i].Name != "" || ptrs[i].Type != Types[s.Type] || ptrs[i].Subtype != s.Sub {
+				bad = append(bad, fmt.Sprintf("Typed(%s) does not find type-only value %d", TypeName(s.Type), i))
+				ptrs[i] = nil
+			}
+		}
+		unique := true
+		for j, o := range slots {
+			if j != i && o.Type == s.Type && o.Sub == s.Sub {
+				unique = false
+			}
+		}
+		if unique {
+			p := vs.TypedSubtype(Types[s.Type], s.Sub)
+			if p == nil || p.Name != s.Name || p.Type != Types[s.Type] || p.Subtype != s.Sub {
+				bad = append(bad, fmt.Sprintf("TypedSubtype(%s,%q) does not find value %d", TypeName(s.Type), s.Sub, i))
+			} else if ptrs[i] == nil {
+				ptrs[i] = p
+			} else if ptrs[i] != p {
+				bad = append(bad, fmt.Sprintf("TypedSubtype(%s,%q) and the name/type lookup disagree on value %d", TypeName(s.Type), s.Sub, i))
+			}
+		}
+	}
+	// signature round trip
+	ids := make([]uint64, len(slots))
+	for i, s := range slots {
+		if ptrs[i] == nil {
+			continue
+		}
+		ids[i] = mint()
+		t := s.Type
+		if IsIface(t) {
+			t = Implementors(t)[0]
+		}
+		v := reflect.ValueOf(MakeValue(t, ids[i]))
+		if IsIface(s.Type) {
+			iv := reflect.New(Types[s.Type]).Elem()
+			iv.Set(v)
+			v = iv
+		}
+		ptrs[i].Value = v
+	}
+	sig := vs.Signature()
+	sv := vs.SignatureValues()
+	if len(sig) != len(sv) {
+		bad = append(bad, fmt.Sprintf("Signature has %d types, SignatureValues %d values", len(sig), len(sv)))
+		return bad
+	}
+	for i := range sv {
+		if sv[i].Type() != sig[i] {
+			bad = append(bad, fmt.Sprintf("SignatureValues()[%d] has type %s, Signature says %s", i, sv[i].Type(), sig[i]))
+		}
+	}
+	vs2, _ := argmapper.NewValueSet(valuesOf(slots))
+	if err := vs2.FromSignature(sv); err != nil {
+		bad = append(bad, "FromSignature: "+err.Error())
+		return bad
+	}
+	back := vs2.Values()
+	for i := range slots {
+		if ptrs[i] == nil || i >= len(back) {
+			continue
+		}
+		id, _, _ := Decode(back[i].Value)
+		if id != ids[i] {
+			bad = append(bad, fmt.Sprintf("value %d (%s) carries token %d after SignatureValues/FromSignature, was %d", i, slots[i].Label, id, ids[i]))
+		}
+	}
+	return bad
+}
+
+// MintScratch allocates a token id that belongs to no operation (used by
+// CheckValueSet).
+func (rt *Runtime) MintScratch() uint64 {
+	return rt.newToken(Token{Kind: TokSupplied, Arg: -2, Op: -1})
 }
 
 // Instantiate builds every party and option value of w against the library.
@@ -282,7 +396,9 @@ func (rt *Runtime) makeGen(ai int, g *Gen) argmapper.ConverterGenFunc {
 		if !g.InheritSub || v.Subtype == "" {
 			return rt.funcs[g.Party], nil
 		}
-		key := fmt.Sprintf("%d/%s", ai, v.Subtype)
+		// like a real generator, build a fresh converter for every operation
+		// (a Func cached across caller threads would need the user's own locking)
+		key := fmt.Sprintf("%d/%s/op%d", ai, v.Subtype, rt.curOp[rt.thread()])
 		pi, ok := rt.derived[key]
 		if !ok {
 			p := rt.Parties[g.Party]
@@ -337,6 +453,28 @@ func (rt *Runtime) buildParty(pi int) error {
 				for i := range p.In {
 					if i < len(got) {
 						vals[i] = got[i].Value
+					}
+				}
+				// the documented lookups must show the callback the same values
+				for i, s := range p.In {
+					if i >= len(got) {
+						break
+					}
+					var via *argmapper.Value
+					how := ""
+					switch {
+					case s.Name != "":
+						via, how = in.Named(s.Name), "Named"
+					case builtLookupByType(p.In, i):
+						via, how = in.Typed(Types[s.Type]), "Typed"
+					default:
+						continue
+					}
+					want, _, _ := Decode(got[i].Value)
+					if via == nil {
+						rt.Online = append(rt.Online, Online{Class: "built-lookup-mismatch", Op: rt.curOp[rt.thread()], Party: pi, Slot: i, Detail: fmt.Sprintf("built party %d: %s lookup of input %s finds nothing", pi, how, s.Label)})
+					} else if have, _, _ := Decode(via.Value); have != want {
+						rt.Online = append(rt.Online, Online{Class: "built-lookup-mismatch", Op: rt.curOp[rt.thread()], Party: pi, Slot: i, Detail: fmt.Sprintf("built party %d: %s lookup of input %s shows token %d, Values() shows %d", pi, how, s.Label, have, want)})
 					}
 				}
 			}
